@@ -42,6 +42,7 @@ TRUSTED = ["mpmath 1.3 at 50 digits (exp, log, erf, erfinv, gamma, loggamma, gam
            "reference of the definitions; self-test in finalize"]
 
 EPSF = 2.0 ** -53
+K_ERF = 4          # ulps of a double erf value near +-1 that the root of erf(x) - y cannot resolve
 K_EXP = 64         # relative K*eps*(size of the exponent) for exp-type formulas
 FLOOR = 1e-290     # absolute floor (underflow)
 
@@ -181,6 +182,14 @@ def generate(tier, seed, ctx):
         p = min(max(p, 1.0000001e-12), 1 - 1.0000001e-12)
         mu = rng.uniform(-10, 10); s = 10.0 ** rng.uniform(-3, 3)
         R.append("c07.gauss_q %s %s %s" % (hx(p), hx(mu), hx(s)))
+    # far tails: p in [1e-15, 1e-12] and the upper tail as far as 1-p is representable (p = 1 - k 2^-53, k >= 1;
+    # k = 0 is p = 1, the 1e-16 window of Inv_Erf), several (mu, sigma): Inv_Erf must bracket the root (|x| up to 5.9)
+    tails = [1e-15, 1.0000001e-15, 2e-15, 5e-15, 1e-14, 1e-13, 5e-13, 7.7e-13, 1e-12] + [10.0 ** rng.uniform(-15, -12) for _ in range(8 * n1)]
+    tails += [1 - k * 2.0 ** -53 for k in (1, 2, 3, 4, 7, 16, 100, 1000, 6000, 9007)] + [1 - rng.randint(1, 9007) * 2.0 ** -53 for _ in range(6 * n1)]
+    tails += [1 - t for t in (1e-15, 1e-14, 1e-13, 5e-13, 1e-12)]
+    for i, p in enumerate(tails):
+        for mu, s in ((0.0, 1.0), (2.5, 1.2), (rng.uniform(-10, 10), 10.0 ** rng.uniform(-3, 3))):
+            R.append("c07.gauss_q %s %s %s" % (hx(p), hx(mu), hx(s)))
     for p in (0.0, 1.0, -0.5, 1.5, 0.5, -1e-300):
         R.append("c07.gauss_q %s %s %s" % (hx(p), hx(1.0), hx(2.0)))
     # ---- binomial ----
@@ -354,6 +363,10 @@ def compare(rq, impl, model, ctx):
         ctx["nontrivial"].add(_key(op, a, model))
     ctx["res"][rq] = impl
     if tag(impl) != "ok":
+        if op == "c07.gauss_q" and tag(model) == "ok" and tag(impl) == "err":
+            p = fl(a[0])
+            if 0 < p < 1:
+                fs = [fail("prop", "Quantile_Gauss terminated on a valid tail probability", "p=%r mu=%r sigma=%r" % (p, fl(a[1]), fl(a[2])))]
         return fs
     out = list(fs)
     mt = toks(model) if tag(model) == "ok" else None
@@ -418,8 +431,15 @@ def _check(op, a, ti, mt, ctx):
             if abs(q - w) > 1e-12 * abs(w):
                 out.append(fail("prop", "Quantile_Gauss(1) is not mu + sqrt2*sigma*10", repr(q)))
         else:
-            ref = M(Fraction(mu)) + mpmath.sqrt(2) * M(Fraction(s)) * mpmath.erfinv(2 * M(Fraction(p)) - 1)
-            if math.isnan(q) or not ratio(ctx, "Quantile_Gauss vs erfinv (1e-4 of Inv_Erf)", abs(mpf(q) - ref), math.sqrt(2) * s * 1.0001e-4 + 1e-13 * abs(mu)):
+            # x-space: Inv_Erf's 1e-4, plus rounding: the argument 2p-1 as the code forms it in double, and the resolution of
+            # a double erf value next to +-1 (2^-53) divided by the slope of erf at the quantile (K_ERF ulps)
+            qd = 2.0 * p - 1.0
+            xr = mpmath.erfinv(M(Fraction(qd)))
+            slope = 2 / mpmath.sqrt(mpmath.pi) * mpmath.exp(-xr * xr)
+            ref = M(Fraction(mu)) + mpmath.sqrt(2) * M(Fraction(s)) * xr
+            tail = "" if 1e-12 <= p <= 1 - 1e-12 else " (far tail)"
+            if math.isnan(q) or not ratio(ctx, "Quantile_Gauss vs erfinv (1e-4 of Inv_Erf)" + tail, abs(mpf(q) - ref),
+                                          math.sqrt(2) * s * (1.0001e-4 + K_ERF * EPSF / slope) + 1e-13 * abs(mu)):
                 out.append(fail("prop", "Quantile_Gauss misses the quantile by more than the 1e-4 accuracy of Inv_Erf", "p=%r got %r ref %s" % (p, q, mpmath.nstr(ref, 17))))
             if math.isnan(c) or not ratio(ctx, "CDF_Gauss(Quantile_Gauss(p))=p", abs(c - p), 6e-5):
                 out.append(fail("prop", "CDF_Gauss(Quantile_Gauss(p)) differs from p by more than 6e-5", "p=%r q=%r cdf=%r" % (p, q, c)))
